@@ -5,6 +5,7 @@ import copy
 from ..prng import Rng
 from ..seams import CLOCK, F, T, ScriptExecutionError, reset_world
 from ..seams import LIB_ERRORS
+from ..oracle import ambient_plugins
 from ..oracle import ACCEPT, REJECT, EITHER, slack3, slack_tripped_int, verdict3
 
 PID = 'C16'
@@ -443,6 +444,10 @@ def _cls(d):
 
 def execute(plan, run):
     reset_world(plan['run_seed'])
+    if plan['idx'] % 5 == 2:
+        # every fifth run: unrelated do-nothing plugins are registered in this process
+        ambient_plugins()
+        run.probe('ambient_plugins')
     SESSION.clear()
     kn = plan['knobs']
     CLOCK.latency_us = kn['latency_us']
